@@ -177,7 +177,9 @@ class FreshOracle:
 # ------------------------------------------------------------------------------------------------------------
 PLAIN = ['int', 'str', 'bool', 'float', 'bytes', 'object']
 LOOKALIKE_LIT = [['lit', '1'], ['lit', 'True'], ['lit', '1.0'], ['lit', '0'], ['lit', 'False'], ['lit', '1', '2'],
-                 ['lit', '2', '1'], ['lit', '"1"'], ['list', ['lit', '1']], ['list', ['lit', 'True']]]
+                 ['lit', '2', '1'], ['lit', '"1"'], ['list', ['lit', '1']], ['list', ['lit', 'True']],
+                 # unequal literals whose hashes collide (hash(-1) == hash(-2)): a table keyed by a hash cannot tell them apart
+                 ['lit', '-1'], ['lit', '-2'], ['list', ['lit', '-1']], ['list', ['lit', '-2']]]
 LOOKALIKE_UNION = [['union', 'int', 'str'], ['union', 'str', 'int'], ['or', 'int', 'str'], ['or', 'str', 'int'],
                    ['opt', 'int'], ['union', 'int', 'None'], ['or', 'int', 'None'], ['union', 'bool', 'int'],
                    ['union', 'int', 'bool']]
@@ -189,7 +191,7 @@ LOOKALIKE_ANN = [['ann', 'int', '1'], ['ann', 'int', 'True'], ['ann', 'int', '1.
 UNHASHABLE = [['annU', 'int'], ['annU', 'str'], ['annU', 'bool'], ['annU', 'float'], ['annU', ['list', 'int']],
               ['list', ['annU', 'int']], ['annU', ['union', 'int', 'str']]]
 OBJS = ['1', 'True', '1.0', '0', 'False', '"a"', '"1"', 'None', '[1]', '[True]', '[1.0]', '["a"]', '[]', '(1, "a")', '(1,)',
-        '{"a": 1}', '{1}', '[[1]]', '2']
+        '{"a": 1}', '{1}', '[[1]]', '2', '-1', '-2', '[-1]', '[-2]']
 
 
 def cls_hints(name: str, g: int) -> list:
